@@ -557,3 +557,11 @@ B("T8.labels_conserved", ["C04", "C13", "C06"], SPAN, "bounded_labels_conserved"
   "whatever endorsement matches (circles, arcs, rects), every label character of the input is shown by exactly one text fragment at its own cell "
   "and no text appears at a cell without a label",
   "the 8 bundled diagrams + 22 catalogue drawings x {whole, upper, lower, left part} x 3 offsets x label on the first / last row")
+
+B("C09.straight_runs", ["C09", "C03"], FB, "bounded_straight_runs", "rows of - ~ _ = | : ! / \\ in ASCII_PROPERTIES + Merge::merge_recursive + Line::merge",
+  "a straight run is exactly one line spanning the whole run (two for '='), dashed for ~ : !",
+  "9 characters x lengths 1..12, 21, 39 (thorough: doubling up to 400) x 2 offsets", file="map/ascii_map.rs", timeout=900, timeout_thorough=3600)
+B("C06.arc_center_translation", ["C06", "C05", "C14"], ARC, "bounded_arc_center_translation", "Arc::center / is_aabb_right_angle_arc / absolute_position",
+  "centre translated exactly (1e-3) and the right-angle verdict unchanged wherever the arc sits on the page",
+  "17 arcs (radius 0.5 and 1, four quadrants, both sweeps, one non right-angle arc) x columns 0..400 x rows 0..40 step 3 (thorough 0..200); "
+  "f32::powf / sqrt chains: not attempted in Kani")
